@@ -3,6 +3,7 @@ import MpVerif.C07.LemmasRecomp
 import MpVerif.C07.LemmasPL
 import MpVerif.Gen.SolCheck
 import MpVerif.C07.Spec
+import MpVerif.C07.LemmasSpec
 set_option linter.unusedSimpArgs false
 /-!
 # C07 — property theorems
@@ -555,6 +556,28 @@ theorem max0_boundsViolD (e : Env) (i : Nat) :
   · simp [ER.lt]; repeat' split
     all_goals (simp; try grind)
 
+/-- **C07_gen_varinfo**: `VarInfoImpl::is_at_lb / is_at_ub / is_nonzero / is_positive / bounds_viol` (constr_keeper.h) are the
+model's `Env.isAtLb / isAtUb / isNonzero / isPositive` and the bound excess used by `Env.boundsViolPos` -/
+theorem C07_gen_varinfo (e : Env) (i : Nat) :
+    e.isAtLb i = Gen.SolCheck.isAtLb (D.fin (e.x i)) (loD (e.lb i)) (D.fin e.feastol) ∧
+    e.isAtUb i = Gen.SolCheck.isAtUb (D.fin (e.x i)) (hiD (e.ub i)) (D.fin e.feastol) ∧
+    e.isNonzero i = Gen.SolCheck.isNonzero (D.fin (e.x i)) (e.isInt i) (D.fin e.feastol) ∧
+    e.isPositive i = Gen.SolCheck.isPositive (D.fin (e.x i)) (e.isInt i) (D.fin e.feastol) ∧
+    boundsViolD e i = Gen.SolCheck.boundsViol (loD (e.lb i)) (D.fin (e.x i)) (hiD (e.ub i)) := by
+  refine ⟨?_, ?_, ?_, ?_, rfl⟩
+  · unfold Env.isAtLb Gen.SolCheck.isAtLb
+    cases e.lb i <;> simp [loD, D.le, D.sub, D.neg, D.add, D.fin, ER.lt] <;> grind
+  · unfold Env.isAtUb Gen.SolCheck.isAtUb
+    cases e.ub i <;> simp [hiD, D.le, D.sub, D.neg, D.add, D.fin, ER.lt] <;> grind
+  · unfold Env.isNonzero Gen.SolCheck.isNonzero
+    have dl : ∀ a b : Rat, decide (a ≤ b) = !decide (b < a) := by
+      intro a b; by_cases h : a ≤ b <;> simp [h] <;> grind
+    cases e.isInt i <;> simp [D.ge, D.abs, D.fin, ER.lt, dl]
+  · unfold Env.isPositive Gen.SolCheck.isPositive
+    have dl : ∀ a b : Rat, decide (a ≤ b) = !decide (b < a) := by
+      intro a b; by_cases h : a ≤ b <;> simp [h] <;> grind
+    cases e.isInt i <;> simp [D.ge, D.fin, ER.lt, dl]
+
 /-- **C07_gen_func**: the generic `ComputeViolation(CustomFunctionalConstraint)` by context / on recomputed values -/
 theorem C07_gen_func (res : Nat) (ctx : Ctx) (f : Func) (e : Env) :
     G.funcComputeViolation e.recomp (ctxCode ctx) (D.fin (e.x res)) (D.fin (f.value e)) (D.fin (e.raw res)) (boundsViolD e res) =
@@ -654,14 +677,17 @@ theorem C07_gen_structure :
   decide
 
 
-/-! ## 8b. the independent specification (`Spec.lean`): no report ⇔ the point satisfies the model within tolerances
+/-! ## 8b. the specification of `Spec.lean`: no report ⇔ the point satisfies the model within tolerances
 
-`SatTolPass` / `SatTol` are written from the model data and the property text alone (no candidate list, no `Violation`, no
-checker function).  `C07_sat_pass_partial` / `C07_sat_iff_partial`: the checker's report is empty exactly when they hold —
-under the explicit hypotheses `SatHyp` that name the two places where the real checker does NOT follow the specification
-(the theorems carry `_partial` for that reason; the full-strength statement is the same equivalence without
-`untested_hold` and `no_ctx_none`, and is FALSE for the code as it exists: `C07_counterexample_untested_adef`,
-`C07_counterexample_untested_unused`, `C07_counterexample_ctx_none` right below). -/
+`SatTolPassTested` / `SatTolTested` (and `SatTolPass` / `SatTol` without the restriction to tested constraints) are written from
+the model data and the property text: no candidate list, no `Violation`, no violation measure, mathematical function values
+(`Func.denote`).  What they still share with the checker model is listed in the header of `Spec.lean`.
+`C07_sat_pass_tested_partial` / `C07_sat_iff_tested_partial`: the checker's report is empty exactly when the point satisfies the
+bounds, integrality, objectives and the constraints the checker tests — under the explicit hypotheses `SatHypT`
+(`no_ctx_none`, `in_domain`, well-formed rows, tolerances in `[0,1)`; hence `_partial`).  `C07_sat_pass_partial` /
+`C07_sat_iff_partial` state it against the unrestricted `SatTol` and for that ASSUME `untested_hold`.  Without these hypotheses the
+equivalence is FALSE for the code as it exists: `C07_counterexample_untested_adef`, `C07_counterexample_untested_unused`,
+`C07_counterexample_ctx_none`, `C07_counterexample_domain` below. -/
 
 /-- the row holds exactly -/
 def RowExact (c : AlgCon) (x : Pt) : Prop :=
@@ -780,9 +806,33 @@ theorem cond_real_iff (res : Nat) (ctx : Ctx) (c : AlgCon) (e : Env) (ea er : Ra
       all_goals first | exact absurd rfl hc | grind | (simp [hnm])
     · cases ctx <;> simp [hgt, hb, zero_check ea _ hea, hnm] at hc ⊢
 
+/-- **the `ComputeValue` overloads (as modelled by `Func.value`) compute the mathematical functions** `Func.denote` wherever the
+arguments are in the domain `Func.inDomain` (logical arguments 0/1, non-empty max/min, non-zero divisor, integral arguments and a
+tolerance below 1/2 for alldiff/numberof) -/
+theorem C07_value_eq_denote (f : Func) (e : Env) (h : f.inDomain e = true) (ht0 : 0 ≤ e.feastol) : f.value e = f.denote e :=
+  value_eq_denote f e h ht0
+
+/-- SOS1: the measure `max(0, #nonzero − 1)` is within a tolerance in `[0,1)` iff at most one member is non-zero beyond tolerance -/
+theorem C07_sos1_spec (vs : List Nat) (e : Env) (ea er : Rat) (h0 : 0 ≤ ea) (h1 : ea < 1) :
+    ((sos1Viol vs e).check ea (some er)).1 = false ↔ (vs.filter (nonZeroV e)).length ≤ 1 := sos1_iff vs e ea er h0 h1
+
+/-- SOS2: the measure `max(0, #positive − 2) + |1 − distance|` is within a tolerance in `[0,1)` iff the positive members are
+none, one, or two adjacent ones (in weight order) -/
+theorem C07_sos2_spec (vs : List Nat) (e : Env) (ea er : Rat) (h0 : 0 ≤ ea) (h1 : ea < 1) :
+    ((sos2Viol vs e).check ea (some er)).1 = false ↔
+      SOS2OK ((List.range vs.length).filter (fun i => positiveV e (vs.getD i 0))) := sos2_iff vs e ea er h0 h1
+
+/-- complementarity by the position of the variable: at its lower bound the expression is ≥ −tol, at its upper bound ≤ tol,
+strictly inside |expression| ≤ tol -/
+theorem C07_compl_spec (ex : Body) (v : Nat) (e : Env) (ea er : Rat) (h0 : 0 ≤ ea) :
+    ((complViol ex v e).check ea (some er)).1 = false ↔
+      (if atLbV e v then -(ex.val e.x) ≤ ea else if atUbV e v then ex.val e.x ≤ ea else rabs (ex.val e.x) ≤ ea) :=
+  compl_iff ex v e ea er h0
+
 /-- **one constraint**: its tolerance test passes iff the constraint's specification holds -/
-theorem con_check_iff (c : Con) (e : Env) (ea er : Rat) (hea : 0 ≤ ea) (hwf : c.wf)
-    (hadef : ∀ r cx b, c ≠ .adef r cx b) (hnone : c.ctxNone = false ∨ e.recomp = true) :
+theorem con_check_iff (c : Con) (e : Env) (ea er : Rat) (hea : 0 ≤ ea) (hea1 : ea < 1) (hft0 : 0 ≤ e.feastol) (hwf : c.wf)
+    (hadef : ∀ r cx b, c ≠ .adef r cx b) (hnone : c.ctxNone = false ∨ e.recomp = true)
+    (hdom : ∀ res ctx f, c = .func res ctx f → e.recomp = false → f.inDomain e = true) :
     ((c.viol e).check ea (some er)).1 = false ↔ ConSpec c e ea er := by
   cases c with
   | alg a =>
@@ -795,9 +845,10 @@ theorem con_check_iff (c : Con) (e : Env) (ea er : Rat) (hea : 0 ≤ ea) (hwf : 
         · intro hcx; subst hcx; simp [Con.ctxNone] at h
         · simp [hr] at h
       have := C07_within_func res ctx f e ea er hea hr
+      rw [value_eq_denote f e (hdom res ctx f rfl hr) hft0] at this
       cases ctx <;> simp_all [Con.viol, ConSpec, FuncSpec, TolLE]
     · have := C07_within_func_ideal res ctx f e ea er hea hr
-      simpa [Con.viol, ConSpec, RecompSpec, TolLE, hr] using this
+      simpa [Con.viol, ConSpec, RecompSpec, TolLE, hr, show boundExcess e res = e.boundsViolPos res from rfl] using this
   | adef r cx b => exact absurd rfl (hadef r cx b)
   | cond res ctx a =>
     cases hr : e.recomp
@@ -808,22 +859,16 @@ theorem con_check_iff (c : Con) (e : Env) (ea er : Rat) (hea : 0 ≤ ea) (hwf : 
       have := cond_real_iff res ctx a e ea er hea hwf.1 hwf.2 hr hc
       simpa [Con.viol, ConSpec, hr] using this
     · have := C07_within_cond_ideal res ctx a e ea er hea hr
-      simpa [Con.viol, ConSpec, RecompSpec, TolLE, hr] using this
+      simpa [Con.viol, ConSpec, RecompSpec, TolLE, hr, show boundExcess e res = e.boundsViolPos res from rfl] using this
   | indicator b bv a =>
     simp only [Con.viol, ConSpec]
     by_cases hb : cround (e.x b) = bv
     · have := C07_within_alg a e.x ea er hea hwf
       simpa [hb, RowOK, TolLE] using this
     · simp [hb, zero_check ea _ hea]
-  | sos1 vs =>
-    simp only [Con.viol, ConSpec, sos1Viol, within_fin_some _ _ _ _ hea]
-    simp
-  | sos2 vs =>
-    simp only [Con.viol, ConSpec, sos2Viol, within_fin_some _ _ _ _ hea]
-    simp
-  | compl ex v =>
-    simp only [Con.viol, ConSpec, complViol]
-    split <;> (try split) <;> simp [within_fin_some _ _ _ _ hea]
+  | sos1 vs => exact sos1_iff vs e ea er hea hea1
+  | sos2 vs => exact sos2_iff vs e ea er hea hea1
+  | compl ex v => exact compl_iff ex v e ea er hea
 
 theorem mem_checkedVars (m : Model) (recomp aux : Bool) (i : Nat) :
     i ∈ m.checkedVars recomp aux ↔ i < m.nvars ∧ (!(m.var i).orig) = aux ∧ ((m.var i).orig = true ∨ recomp = false) := by
@@ -880,33 +925,43 @@ theorem vars_iff (m : Model) (o : Opts) (x : Pt) (recomp : Bool) (hft : 0 ≤ o.
     · exact key false (Or.inr h1)
     · exact key true (Or.inr h1)
 
-theorem cons_iff (m : Model) (o : Opts) (mode : Nat) (e : Env) (hft : 0 ≤ o.feastol)
+/-- the candidates of the constraint keepers all pass iff every selected constraint THE CHECKER TESTS meets its specification -/
+theorem cons_iff (m : Model) (o : Opts) (mode : Nat) (e : Env) (hft : 0 ≤ o.feastol) (hft1 : o.feastol < 1)
+    (hef : 0 ≤ e.feastol)
     (hwf : ∀ kp, kp ∈ m.keepers → ∀ it, it ∈ kp.items → it.con.wf)
-    (hunt : ∀ kp, kp ∈ m.keepers → ∀ it, it ∈ kp.items → it.untested = true → it.cclass &&& mode ≠ 0 →
-      ConSpec it.con e o.feastol o.feastolrel)
     (hnone : e.recomp = true ∨ ∀ kp, kp ∈ m.keepers → ∀ it, it ∈ kp.items → it.unused = false → it.cclass &&& mode ≠ 0 →
-      it.con.ctxNone = false) :
+      it.con.ctxNone = false)
+    (hdom : e.recomp = true ∨ ∀ kp, kp ∈ m.keepers → ∀ it, it ∈ kp.items → it.unused = false → it.cclass &&& mode ≠ 0 →
+      ∀ res ctx f, it.con = .func res ctx f → f.inDomain e = true) :
     (∀ c, c ∈ m.keepers.flatMap (fun kp => kp.selCands o mode e) → c.violated = false) ↔
-    (∀ kp, kp ∈ m.keepers → ∀ it, it ∈ kp.items → it.cclass &&& mode ≠ 0 → ConSpec it.con e o.feastol o.feastolrel) := by
+    (∀ kp, kp ∈ m.keepers → ∀ it, it ∈ kp.items → specClass it &&& mode ≠ 0 → it.untested = false →
+      ConSpec it.con e o.feastol o.feastolrel) := by
+  have hcls : ∀ it : Item, specClass it = it.cclass := fun _ => rfl
+  simp only [hcls]
+  have hd : ∀ kp, kp ∈ m.keepers → ∀ it, it ∈ kp.items → it.unused = false → it.cclass &&& mode ≠ 0 →
+      ∀ res ctx f, it.con = .func res ctx f → e.recomp = false → f.inDomain e = true := by
+    intro kp hkp it hit hun hcl res ctx f hc hr
+    rcases hdom with h1 | h1
+    · rw [hr] at h1; exact absurd h1 (by decide)
+    · exact h1 kp hkp it hit hun hcl res ctx f hc
   constructor
-  · intro h kp hkp it hit hcl
-    by_cases hu : it.untested = true
-    · exact hunt kp hkp it hit hu hcl
-    · have hun : it.unused = false := by
-        unfold Item.untested at hu; cases h1 : it.unused <;> simp [h1] at hu ⊢
-      have hna : ∀ r cx b, it.con ≠ .adef r cx b := by
-        intro r cx b hc; unfold Item.untested at hu; simp [hc] at hu
-      have hsel : it.selected mode = true := by unfold Item.selected; simp [hun, hcl]
-      have hc : (⟨it.con.viol e, o.feastol, some o.feastolrel, it.name⟩ : Cand).violated = false := by
-        apply h
-        refine List.mem_flatMap.mpr ⟨kp, hkp, ?_⟩
-        unfold Keeper.selCands
-        exact List.mem_map.mpr ⟨it, List.mem_filter.mpr ⟨List.mem_reverse.mpr hit, hsel⟩, rfl⟩
-      have hn : it.con.ctxNone = false ∨ e.recomp = true := by
-        rcases hnone with h1 | h1
-        · exact Or.inr h1
-        · exact Or.inl (h1 kp hkp it hit hun hcl)
-      exact (con_check_iff it.con e o.feastol o.feastolrel hft (hwf kp hkp it hit) hna hn).mp hc
+  · intro h kp hkp it hit hcl hu
+    have hun : it.unused = false := by
+      unfold Item.untested at hu; cases h1 : it.unused <;> simp [h1] at hu ⊢
+    have hna : ∀ r cx b, it.con ≠ .adef r cx b := by
+      intro r cx b hc; unfold Item.untested at hu; simp [hc] at hu
+    have hsel : it.selected mode = true := by unfold Item.selected; simp [hun, hcl]
+    have hc : (⟨it.con.viol e, o.feastol, some o.feastolrel, it.name⟩ : Cand).violated = false := by
+      apply h
+      refine List.mem_flatMap.mpr ⟨kp, hkp, ?_⟩
+      unfold Keeper.selCands
+      exact List.mem_map.mpr ⟨it, List.mem_filter.mpr ⟨List.mem_reverse.mpr hit, hsel⟩, rfl⟩
+    have hn : it.con.ctxNone = false ∨ e.recomp = true := by
+      rcases hnone with h1 | h1
+      · exact Or.inr h1
+      · exact Or.inl (h1 kp hkp it hit hun hcl)
+    exact (con_check_iff it.con e o.feastol o.feastolrel hft hft1 hef (hwf kp hkp it hit) hna hn
+      (hd kp hkp it hit hun hcl)).mp hc
   · intro h c hc
     obtain ⟨kp, hkp, hc⟩ := List.mem_flatMap.mp hc
     unfold Keeper.selCands at hc
@@ -915,17 +970,22 @@ theorem cons_iff (m : Model) (o : Opts) (mode : Nat) (e : Env) (hft : 0 ≤ o.fe
     have hit := List.mem_reverse.mp hit
     unfold Item.selected at hsel
     simp only [Bool.and_eq_true, Bool.not_eq_true', decide_eq_true_eq] at hsel
-    have hspec := h kp hkp it hit hsel.2
     unfold Cand.violated
     by_cases hadef : ∃ r cx b, it.con = .adef r cx b
     · obtain ⟨r, cx, b, hc⟩ := hadef
       rw [hc]; exact C07_adef_never_reported r cx b e o.feastol _ hft
     · have hna : ∀ r cx b, it.con ≠ .adef r cx b := fun r cx b hc => hadef ⟨r, cx, b, hc⟩
+      have hu : it.untested = false := by
+        unfold Item.untested
+        rw [hsel.1, Bool.false_or]
+        cases hcon : it.con <;> first | rfl | exact absurd hcon (hna _ _ _)
+      have hspec := h kp hkp it hit hsel.2 hu
       have hn : it.con.ctxNone = false ∨ e.recomp = true := by
         rcases hnone with h1 | h1
         · exact Or.inr h1
         · exact Or.inl (h1 kp hkp it hit hsel.1 hsel.2)
-      exact (con_check_iff it.con e o.feastol o.feastolrel hft (hwf kp hkp it hit) hna hn).mpr hspec
+      exact (con_check_iff it.con e o.feastol o.feastolrel hft hft1 hef (hwf kp hkp it hit) hna hn
+        (hd kp hkp it hit hsel.1 hsel.2)).mpr hspec
 
 theorem obj_iff (m : Model) (o : Opts) (x : Pt) (objv : List Rat) (hft : 0 ≤ o.feastol) :
     (∀ c, c ∈ m.objCands o x objv → c.violated = false) ↔
@@ -944,25 +1004,37 @@ theorem obj_iff (m : Model) (o : Opts) (x : Pt) (objv : List Rat) (hft : 0 ≤ o
     unfold Cand.violated
     exact (within_fin_some _ _ _ _ hft).mpr (h i hi)
 
-/-- hypotheses under which the checker follows the specification -/
-structure SatHyp (m : Model) (o : Opts) (e : Env) (mode : Nat) : Prop where
+/-- hypotheses under which the checker's verdict on the constraints IT TESTS follows the specification -/
+structure SatHypT (m : Model) (o : Opts) (e : Env) (mode : Nat) : Prop where
   feastol_nonneg : 0 ≤ o.feastol
+  /-- SOS violations are counts: a tolerance of 1 or more would accept one member too many -/
+  feastol_lt_one : o.feastol < 1
   inttol_nonneg : 0 ≤ o.inttol
   wf : ∀ kp, kp ∈ m.keepers → ∀ it, it ∈ kp.items → it.con.wf
-  /-- EXCEPTION 1 (see `C07_counterexample_untested_*`): the constraints the checker never tests are assumed to hold -/
-  untested_hold : ∀ kp, kp ∈ m.keepers → ∀ it, it ∈ kp.items → it.untested = true → it.cclass &&& mode ≠ 0 →
-      ConSpec it.con e o.feastol o.feastolrel
   /-- EXCEPTION 2 (see `C07_counterexample_ctx_none`): on the solver's values no selected constraint has `CTX_NONE` -/
   no_ctx_none : e.recomp = true ∨ ∀ kp, kp ∈ m.keepers → ∀ it, it ∈ kp.items → it.unused = false →
       it.cclass &&& mode ≠ 0 → it.con.ctxNone = false
+  /-- EXCEPTION 3: on the solver's values every selected functional constraint is evaluated inside the domain on which its
+  evaluator computes the mathematical function (`Func.inDomain`; outside — e.g. a logical argument that is not 0/1, division
+  by zero — the evaluator returns a value by its own convention and nothing is claimed; see `C07_counterexample_domain`) -/
+  in_domain : e.recomp = true ∨ ∀ kp, kp ∈ m.keepers → ∀ it, it ∈ kp.items → it.unused = false →
+      it.cclass &&& mode ≠ 0 → ∀ res ctx f, it.con = .func res ctx f → f.inDomain e = true
 
-theorem C07_sat_pass_partial (m : Model) (o : Opts) (xs objv raw : List Rat) (recomp : Bool)
-    (H : SatHyp m o (passEnv m o xs raw recomp) (passMode o recomp)) :
+/-- `SatHypT` plus EXCEPTION 1 (see `C07_counterexample_untested_*`): the constraints the checker never tests are ASSUMED to hold -/
+structure SatHyp (m : Model) (o : Opts) (e : Env) (mode : Nat) : Prop extends SatHypT m o e mode where
+  untested_hold : ∀ kp, kp ∈ m.keepers → ∀ it, it ∈ kp.items → it.untested = true → it.cclass &&& mode ≠ 0 →
+      ConSpec it.con e o.feastol o.feastolrel
+
+/-- one pass: no report iff the point satisfies, within tolerances, the bounds, integrality, objective values and THE
+CONSTRAINTS THE CHECKER TESTS (`SatTolPassTested`: items not marked unused and not linear/quadratic defining constraints) -/
+theorem C07_sat_pass_tested_partial (m : Model) (o : Opts) (xs objv raw : List Rat) (recomp : Bool)
+    (H : SatHypT m o (passEnv m o xs raw recomp) (passMode o recomp)) :
     (doCheckSol m o xs objv raw recomp).1 = [] ↔
-      SatTolPass m o (passEnv m o xs raw recomp) (passMode o recomp) objv := by
+      SatTolPassTested m o (passEnv m o xs raw recomp) (passMode o recomp) objv := by
   rw [doCheckSol_eq_nil]
   have hv := vars_iff m o (passEnv m o xs raw recomp).x recomp H.feastol_nonneg H.inttol_nonneg
-  have hc := cons_iff m o (passMode o recomp) (passEnv m o xs raw recomp) H.feastol_nonneg H.wf H.untested_hold H.no_ctx_none
+  have hc := cons_iff m o (passMode o recomp) (passEnv m o xs raw recomp) H.feastol_nonneg H.feastol_lt_one
+    (show 0 ≤ o.feastol from H.feastol_nonneg) H.wf H.no_ctx_none H.in_domain
   have ho := obj_iff m o (passEnv m o xs raw recomp).x objv H.feastol_nonneg
   have split : ∀ (A B C : List Cand), (∀ c, c ∈ A ++ B ++ C → c.violated = false) ↔
       ((∀ c, c ∈ A → c.violated = false) ∧ (∀ c, c ∈ B → c.violated = false) ∧ (∀ c, c ∈ C → c.violated = false)) := by
@@ -970,7 +1042,7 @@ theorem C07_sat_pass_partial (m : Model) (o : Opts) (xs objv raw : List Rat) (re
   have ite : ∀ (p : Prop) [Decidable p] (L : List Cand),
       (∀ c, c ∈ (if p then L else []) → c.violated = false) ↔ (p → ∀ c, c ∈ L → c.violated = false) := by
     intro p _ L; by_cases hp : p <;> simp [hp]
-  unfold passCands SatTolPass
+  unfold passCands SatTolPassTested
   simp only []
   rw [split, ite, ite, ite]
   refine and_congr (imp_congr_right fun _ => ?_) (and_congr (imp_congr_right fun _ => ?_) (imp_congr_right fun _ => ?_))
@@ -978,6 +1050,28 @@ theorem C07_sat_pass_partial (m : Model) (o : Opts) (xs objv raw : List Rat) (re
   · exact hc
   · exact ho
 
+/-- the tested restriction is the whole difference between `SatTolPassTested` and `SatTolPass` -/
+theorem satTolPass_iff_tested (m : Model) (o : Opts) (e : Env) (mode : Nat) (objv : List Rat)
+    (hunt : ∀ kp, kp ∈ m.keepers → ∀ it, it ∈ kp.items → it.untested = true → it.cclass &&& mode ≠ 0 →
+      ConSpec it.con e o.feastol o.feastolrel) :
+    SatTolPassTested m o e mode objv ↔ SatTolPass m o e mode objv := by
+  unfold SatTolPassTested SatTolPass
+  refine and_congr Iff.rfl (and_congr (imp_congr_right fun _ => ?_) Iff.rfl)
+  constructor
+  · intro h kp hkp it hit hcl
+    by_cases hu : it.untested = true
+    · exact hunt kp hkp it hit hu hcl
+    · exact h kp hkp it hit hcl (by simpa using hu)
+  · intro h kp hkp it hit hcl _
+    exact h kp hkp it hit hcl
+
+/-- one pass against the full specification: needs the ASSUMPTION `SatHyp.untested_hold` -/
+theorem C07_sat_pass_partial (m : Model) (o : Opts) (xs objv raw : List Rat) (recomp : Bool)
+    (H : SatHyp m o (passEnv m o xs raw recomp) (passMode o recomp)) :
+    (doCheckSol m o xs objv raw recomp).1 = [] ↔
+      SatTolPass m o (passEnv m o xs raw recomp) (passMode o recomp) objv := by
+  rw [C07_sat_pass_tested_partial m o xs objv raw recomp H.toSatHypT]
+  exact satTolPass_iff_tested m o _ _ objv H.untested_hold
 
 /-- **the point satisfies the model within tolerances**: on the solver's values for the classes selected by the low mode bits,
 on the recomputed values for the classes selected by the high ones -/
@@ -986,33 +1080,58 @@ def SatTol (m : Model) (o : Opts) (xs objv : List Rat) : Prop :=
   (o.mode &&& 992 ≠ 0 →
     SatTolPass m o (passEnv m o (recompute m o xs) (xBack m o xs) true) (passMode o true) objv)
 
-/-- **C07_sat_iff_partial**: for every solver status, `CheckSolution` has no report iff the check is exempt (status 200..299
-without `sol:chk:infeas`) or the point satisfies the model within tolerances (`SatTol`) — given `SatHyp` for the passes that run -/
+/-- `SatTol` restricted to the constraints the checker tests -/
+def SatTolTested (m : Model) (o : Opts) (xs objv : List Rat) : Prop :=
+  (o.mode &&& 31 ≠ 0 → SatTolPassTested m o (passEnv m o xs [] false) (passMode o false) objv) ∧
+  (o.mode &&& 992 ≠ 0 →
+    SatTolPassTested m o (passEnv m o (recompute m o xs) (xBack m o xs) true) (passMode o true) objv)
+
+/-- **C07_sat_iff_tested_partial**: for every solver status, `CheckSolution` has no report iff the check is exempt (status
+200..299 without `sol:chk:infeas`) or the point satisfies, within tolerances, the bounds, integrality, objectives and the
+constraints the checker tests (`SatTolTested`).  No assumption about the untested constraints; `SatHypT` (tolerances in
+`[0,1)`, rows with `lo ≤ hi`, no selected `CTX_NONE` constraint and functional constraints inside their evaluator's domain on
+the solver's values) for the passes that run. -/
+theorem C07_sat_iff_tested_partial (m : Model) (o : Opts) (xs objv : List Rat) (code : Int)
+    (Hreal : o.mode &&& 31 ≠ 0 → SatHypT m o (passEnv m o xs [] false) (passMode o false))
+    (Hideal : o.mode &&& 992 ≠ 0 →
+      SatHypT m o (passEnv m o (recompute m o xs) (xBack m o xs) true) (passMode o true)) :
+    (checkSolutionCode m o xs objv code).hasReport = false ↔
+      (((200 ≤ code ∧ code ≤ 299) ∧ o.infeas = false) ∨ SatTolTested m o xs objv) := by
+  unfold checkSolutionCode
+  rw [C07_iff]
+  have hk : (isProblemInfeasible code = true ∧ o.infeas = false) ↔ ((200 ≤ code ∧ code ≤ 299) ∧ o.infeas = false) := by
+    unfold isProblemInfeasible; simp only [Bool.and_eq_true, decide_eq_true_eq]
+  rw [hk]
+  unfold SatTolTested
+  refine or_congr Iff.rfl (and_congr ?_ ?_)
+  · constructor
+    · intro h hb
+      exact (C07_sat_pass_tested_partial m o xs objv [] false (Hreal hb)).mp ((doCheckSol_eq_nil m o xs objv [] false).mpr (h hb))
+    · intro h hb
+      exact (doCheckSol_eq_nil m o xs objv [] false).mp ((C07_sat_pass_tested_partial m o xs objv [] false (Hreal hb)).mpr (h hb))
+  · constructor
+    · intro h hb
+      exact (C07_sat_pass_tested_partial m o _ objv _ true (Hideal hb)).mp ((doCheckSol_eq_nil m o _ objv _ true).mpr (h hb))
+    · intro h hb
+      exact (doCheckSol_eq_nil m o _ objv _ true).mp ((C07_sat_pass_tested_partial m o _ objv _ true (Hideal hb)).mpr (h hb))
+
+/-- **C07_sat_iff_partial**: the same against the full `SatTol` — this form ASSUMES (`SatHyp.untested_hold`) that the
+constraints the checker never tests hold -/
 theorem C07_sat_iff_partial (m : Model) (o : Opts) (xs objv : List Rat) (code : Int)
     (Hreal : o.mode &&& 31 ≠ 0 → SatHyp m o (passEnv m o xs [] false) (passMode o false))
     (Hideal : o.mode &&& 992 ≠ 0 →
       SatHyp m o (passEnv m o (recompute m o xs) (xBack m o xs) true) (passMode o true)) :
     (checkSolutionCode m o xs objv code).hasReport = false ↔
       (((200 ≤ code ∧ code ≤ 299) ∧ o.infeas = false) ∨ SatTol m o xs objv) := by
-  unfold checkSolutionCode
-  rw [C07_iff]
-  have hk : (isProblemInfeasible code = true ∧ o.infeas = false) ↔ ((200 ≤ code ∧ code ≤ 299) ∧ o.infeas = false) := by
-    unfold isProblemInfeasible; simp only [Bool.and_eq_true, decide_eq_true_eq]
-  rw [hk]
-  unfold SatTol
+  rw [C07_sat_iff_tested_partial m o xs objv code (fun h => (Hreal h).toSatHypT) (fun h => (Hideal h).toSatHypT)]
+  unfold SatTolTested SatTol
   refine or_congr Iff.rfl (and_congr ?_ ?_)
-  · constructor
-    · intro h hb
-      exact (C07_sat_pass_partial m o xs objv [] false (Hreal hb)).mp ((doCheckSol_eq_nil m o xs objv [] false).mpr (h hb))
-    · intro h hb
-      exact (doCheckSol_eq_nil m o xs objv [] false).mp ((C07_sat_pass_partial m o xs objv [] false (Hreal hb)).mpr (h hb))
-  · constructor
-    · intro h hb
-      exact (C07_sat_pass_partial m o _ objv _ true (Hideal hb)).mp ((doCheckSol_eq_nil m o _ objv _ true).mpr (h hb))
-    · intro h hb
-      exact (doCheckSol_eq_nil m o _ objv _ true).mp ((C07_sat_pass_partial m o _ objv _ true (Hideal hb)).mpr (h hb))
+  · exact ⟨fun h hb => (satTolPass_iff_tested m o _ _ objv (Hreal hb).untested_hold).mp (h hb),
+      fun h hb => (satTolPass_iff_tested m o _ _ objv (Hreal hb).untested_hold).mpr (h hb)⟩
+  · exact ⟨fun h hb => (satTolPass_iff_tested m o _ _ objv (Hideal hb).untested_hold).mp (h hb),
+      fun h hb => (satTolPass_iff_tested m o _ _ objv (Hideal hb).untested_hold).mpr (h hb)⟩
 
-/-! ### the exceptions are real: counterexamples to the equivalence without `SatHyp.untested_hold` / `SatHyp.no_ctx_none` -/
+/-! ### the exceptions are real: counterexamples to the equivalence without `SatHyp.untested_hold` / `SatHypT.no_ctx_none` / `SatHypT.in_domain` -/
 
 /-- `r = 2·x` (linear functional constraint, never tested), row `r ≤ 5`; the solver claims `r = 1` at `x = 4` -/
 def cexAdefModel : Model :=
@@ -1067,6 +1186,23 @@ theorem C07_counterexample_ctx_none :
     subst hit
     simp [ConSpec, passEnv, Model.envOf, FuncSpec]
   · intro h; exact absurd h (by decide)
+
+/-- `r = and(b)` with a logical argument that is not 0/1 (`b = 3/4`, outside `Func.inDomain`): the evaluator treats `3/4` as
+true (threshold 1/2) and accepts `r = 1`; mathematically `b = 1` is false -/
+def cexDomainModel : Model :=
+  ⟨[⟨some 0, some 1, false, true, "b", none⟩, ⟨some 0, some 1, false, false, "r", some (0, 0)⟩],
+   [⟨"_and", false, [⟨.func 1 .mix (.and [0]), 0, false, false, "a"⟩]⟩], []⟩
+
+theorem C07_counterexample_domain :
+    (checkSolutionCode cexDomainModel (cexOpts 3) [3/4, 1] [] 0).hasReport = false ∧
+    ¬ SatTolPassTested cexDomainModel (cexOpts 3) (passEnv cexDomainModel (cexOpts 3) [3/4, 1] [] false) (passMode (cexOpts 3) false) [] := by
+  refine ⟨by decide +kernel, ?_⟩
+  intro h
+  have := h.2.1 (by decide) ⟨"_and", false, [⟨.func 1 .mix (.and [0]), 0, false, false, "a"⟩]⟩
+    (by simp [cexDomainModel]) ⟨.func 1 .mix (.and [0]), 0, false, false, "a"⟩ (by simp) (by decide) (by decide)
+  simp only [ConSpec, passEnv, Model.envOf, Bool.false_eq_true, if_false, FuncSpec, TolLE] at this
+  revert this
+  decide +kernel
 
 /-! ## 8c. `sol:chk:prec`: rounding to significant digits (`round_to_digits`, utils-math.h) -/
 
@@ -1278,7 +1414,14 @@ example : solveCodeOverride { cexOpts 1 with fail := true } (checkSolutionCode c
 -- context, nothing untested, no `CTX_NONE`), and there the equivalence decides both ways (x = 7 violates, x = 3 satisfies)
 example : SatHyp cexCondModel (cexOpts 3) (passEnv cexCondModel (cexOpts 3) [7, 0] [] false) (passMode (cexOpts 3) false) where
   feastol_nonneg := by decide +kernel
+  feastol_lt_one := by decide +kernel
   inttol_nonneg := by decide +kernel
+  in_domain := by
+    right
+    intro kp hkp it hit _ _ res ctx f hc
+    simp only [cexCondModel, List.mem_cons, List.mem_nil_iff, or_false] at hkp; subst hkp
+    simp only [List.mem_cons, List.mem_nil_iff, or_false] at hit; subst hit
+    simp at hc
   wf := by
     intro kp hkp it hit
     simp only [cexCondModel, List.mem_cons, List.mem_nil_iff, or_false] at hkp; subst hkp
@@ -1296,6 +1439,15 @@ example : SatHyp cexCondModel (cexOpts 3) (passEnv cexCondModel (cexOpts 3) [7, 
     simp only [cexCondModel, List.mem_cons, List.mem_nil_iff, or_false] at hkp; subst hkp
     simp only [List.mem_cons, List.mem_nil_iff, or_false] at hit; subst hit
     rfl
+-- `SatHypT.in_domain` / `C07_value_eq_denote`: a functional constraint evaluated inside its domain (`r = and(b)`, `b = 1`)
+example : (Func.and [0]).inDomain (passEnv cexDomainModel (cexOpts 3) [1, 1] [] false) = true ∧
+    (Func.and [0]).inDomain (passEnv cexDomainModel (cexOpts 3) [3/4, 1] [] false) = false ∧
+    (Func.numberofConst 2 [0, 1]).inDomain (passEnv cexDomainModel (cexOpts 3) [2, 1] [] false) = true := by decide +kernel
+-- `C07_sos2_spec`: both sides (members 0 and 1 positive: adjacent; members 0 and 2: not)
+example : SOS2OK ((List.range 3).filter (fun i => positiveV (passEnv cexDomainModel (cexOpts 3) [1, 1] [] false) ([0, 1, 5].getD i 0))) :=
+  (C07_sos2_spec [0, 1, 5] _ (1/1000000) (1/1000000) (by decide +kernel) (by decide +kernel)).mp (by decide +kernel)
+example : ¬ SOS2OK ((List.range 3).filter (fun i => positiveV (passEnv cexDomainModel (cexOpts 3) [1, 1] [] false) ([0, 5, 1].getD i 0))) :=
+  fun h => absurd ((C07_sos2_spec [0, 5, 1] _ (1/1000000) (1/1000000) (by decide +kernel) (by decide +kernel)).mpr h) (by decide +kernel)
 example : (checkSolutionCode cexCondModel (cexOpts 3) [7, 0] [] 0).hasReport = true ∧
     (checkSolutionCode cexCondModel (cexOpts 3) [3, 0] [] 0).hasReport = false := by decide +kernel
 
